@@ -595,4 +595,45 @@ theorem go_quantile_is_order_statistic {minV : Int} {maxV s : Nat} (hv : Valid m
       Gen.Hdr.highestEquivalentValue (CodeTie.cfgOf (new minV maxV s)) x := by
   rw [(go_value_functions_are_model hv x hx 0 0).2.2.1, quantile_is_order_statistic hv vs h63 r x hos]
 
+/-- the configuration facts the translated code's ties need, for every configuration `New` establishes -/
+theorem go_cfg_facts {minV : Int} {maxV s : Nat} (hv : Valid minV maxV s) :
+    WF (new minV maxV s) ∧ (new minV maxV s).halfMag ≤ 20 := by
+  refine ⟨new_wf' hv, ?_⟩
+  obtain ⟨_, h18, _⟩ := subMag_cases s hv.s1 hv.s5
+  show (if subMag s < 1 then 1 else subMag s) - 1 ≤ 20
+  split <;> omega
+
+/-- **one call of hdr.go's `iterator.next`** (translated: 32-bit index arithmetic exact) **is one step of the model's
+walk** over the counts array, from every position of the walk and in every histogram with a configuration `New`
+establishes: it returns false exactly when the model's walk ends and otherwise moves to the model's next position with
+the same count, running count, value and highest equivalent value -/
+theorem go_iterator_step_is_model {h : Hist} (wf : WF h) (hh : h.halfMag ≤ 20) (fuel b : Nat) (s ct ca vf hi : Int)
+    (hs1 : -1 ≤ s) (hs2 : s < h.subCount) (hb : b ≤ h.bucketCount) :
+    match iterFrom (fuel + 1) h b s ct with
+    | [] => (Gen.Hdr.next (CodeTie.itOf h b s ca ct vf hi)).1 = false
+    | p :: _ => Gen.Hdr.next (CodeTie.itOf h b s ca ct vf hi) =
+        (true, CodeTie.itOf h p.b p.s p.countAt p.countTo p.valueFrom p.highest) :=
+  CodeTie.next_tie wf hh fuel b s ct ca vf hi hs1 hs2 hb
+
+/-- **hdr.go's `Max` and `Min`, translated as they stand** (iterator constructor, the `for i.next()` loop with its
+`break`, the final equivalent-value call), **are the model's `maxV` and `minV`** - for every histogram reachable by
+recording into a configuration `New` establishes; the loops get as many rounds as the counts array has entries, plus two -/
+theorem go_Max_Min_are_model {minV : Int} {maxV s : Nat} (hv : Valid minV maxV s) (vs : List Int) :
+    let h := recordAll (new minV maxV s) vs
+    Gen.Hdr.Max (h.countsLen + 2) (CodeTie.cfgOf h) = (Hdr.maxV h : Int) ∧
+    Gen.Hdr.Min (h.countsLen + 2) (CodeTie.cfgOf h) = (Hdr.minV h : Int) := by
+  intro h
+  obtain ⟨wf0, hh0⟩ := go_cfg_facts hv
+  have hs := (recordAll_spec vs _ (new_inv minV maxV s)).2.1
+  have f := hs.fields
+  have wf : WF (recordAll (new minV maxV s) vs) := by
+    have e1 : (new minV maxV s).highest = (recordAll (new minV maxV s) vs).highest := by
+      have := hs; unfold SameCfg at this; injection this with _ h2
+    have e2 : (new minV maxV s).sigfigs = (recordAll (new minV maxV s) vs).sigfigs := by
+      have := hs; unfold SameCfg at this; injection this with _ _ _ h4
+    obtain ⟨w1, w2, w3, w4, w5, w6, w7, w8⟩ := wf0
+    constructor <;> simp only [← f, ← e1, ← e2] <;> assumption
+  have hh : (recordAll (new minV maxV s) vs).halfMag ≤ 20 := by rw [← f.2.2.1]; exact hh0
+  exact ⟨CodeTie.Max_tie wf hh, CodeTie.Min_tie wf hh⟩
+
 end Ftdc.Props.C13
